@@ -279,7 +279,40 @@ def check_wiring(fx, rep):
     if loop is not None:
         rep.fn(loop)
         check_loop_arms(fx, rep, loop)
-    rep.floor('wiring-instances', n, 25)
+    n += check_frame_kinds(fx, rep)
+    rep.floor('wiring-instances', n, 28)
+
+
+def check_frame_kinds(fx, rep):
+    """each frame constructor answers in its own kind: make_call_frame builds call frames / call
+    results, make_create_frame create ones, make_eofcreate_frame EOF-create ones (the frame loop, the
+    return handlers and the inspector's input stacks are all selected by that kind)."""
+    E = 'revm::context::evm_context::EvmContext::'
+    want = {'make_call_frame': 'call', 'make_create_frame': 'create', 'make_eofcreate_frame': 'eofcreate'}
+    n = 0
+    for nm, kind in want.items():
+        f = fx.fns.get(E + nm)
+        if f is None:
+            rep.undecided('R2-wiring', 'kind:' + nm, 'not found')
+            continue
+        rep.fn(f)
+        used = set()
+        for g in [f] + list(fx.closures_of(f.nq)):
+            for _, t in g.calls():
+                c = t.target_fn or ''
+                if '::FrameOrResult::new_' in c:
+                    used.add(c.split('::new_')[-1])
+            for b in g.blocks:
+                for st in b.stmts:
+                    if st.kind == 'assign' and st.rv.rv == 'agg' and st.rv.d.get('adt', '').split('::')[-1] in ('Frame', 'FrameResult') and st.rv.d.get('variant'):
+                        used.add({'Call': 'call', 'Create': 'create', 'EOFCreate': 'eofcreate'}.get(st.rv.d['variant'], st.rv.d['variant']) + '_direct')
+        kinds = {u.rsplit('_', 1)[0] for u in used}
+        n += 1
+        if kinds == {kind} and any(u.endswith('_frame') or u.endswith('_direct') for u in used) and any(u.endswith('_result') or u.endswith('_direct') for u in used):
+            rep.ok('R2-wiring', 'kind:' + nm, sorted(used))
+        else:
+            rep.violation('R2-wiring', 'kind:' + nm, '%s builds %s; every frame and every early result it returns must be of kind `%s` (a result of another kind is routed to the wrong return handler and inspector stack)' % (nm, sorted(used), kind), f.where())
+    return n
 
 
 def fn_items(f, og, o, depth=0):
